@@ -36,12 +36,15 @@ type CharacteristicRequest struct {
 func (srv *Server) Authenticate(next http.Handler) http.Handler {
 	return http.HandlerFunc(func(w http.ResponseWriter, r *http.Request) {
 		w.Header().Set("Content-Type", hap.HTTPContentTypeHAPJson)
-		sess := srv.context.GetSessionForRequest(r)
-		if sess == nil {
+		// A session exists for every accepted connection. Only a session which has
+		// completed pair-verify (and therefore has a cryptographer) is authenticated.
+		sess, _ := srv.context.Get(srv.context.GetConnectionKey(r)).(hap.Session)
+		if sess == nil || sess.Encrypter() == nil {
 			w.WriteHeader(470) // this custom status code indicates an error
 			if err := WriteJSON(w, r, &ErrResponse{Status: hap.StatusInsufficientPrivileges}); err != nil {
 				log.Debug.Println(err)
 			}
+			return
 		}
 
 		next.ServeHTTP(w, r)
